@@ -173,6 +173,8 @@ pub enum Fault {
     Truncate(usize),
     Extend(usize),
     SwapCommitments(usize, usize),
+    /// the promises of two commitments exchanged (commitments stay in place)
+    SwapPromises(usize, usize),
     ReplaceCommitment { j: usize, with: PointRepl },
     Promise { j: usize, with: PromiseRepl },
     Bits { double: bool },
@@ -197,6 +199,7 @@ impl Fault {
             Fault::Truncate(_) => "truncate",
             Fault::Extend(_) => "extend",
             Fault::SwapCommitments(..) => "swap_commitments",
+            Fault::SwapPromises(..) => "swap_promises",
             Fault::ReplaceCommitment { .. } => "replace_commitment",
             Fault::Promise { .. } => "promise",
             Fault::Bits { .. } => "bits",
@@ -258,6 +261,7 @@ pub fn enumerate_faults<G: Group>(msg: &Msg<G>, rng: &mut SimRng) -> Vec<Fault> 
         }
         for i in 0..j {
             v.push(Fault::SwapCommitments(i, j));
+            v.push(Fault::SwapPromises(i, j));
         }
     }
     v.push(Fault::Bits { double: true });
@@ -393,6 +397,12 @@ pub fn apply_fault<G: Group>(msg: &Msg<G>, f: &Fault, rng: &mut SimRng) -> Optio
                 return None;
             }
             out.commitments.swap(*i, *j);
+        },
+        Fault::SwapPromises(i, j) => {
+            if *i >= msg.promises.len() || *j >= msg.promises.len() || msg.promises[*i].unwrap_or(0) == msg.promises[*j].unwrap_or(0) {
+                return None;
+            }
+            out.promises.swap(*i, *j);
         },
         Fault::ReplaceCommitment { j, with } => {
             if *j >= msg.commitments.len() {
